@@ -239,19 +239,29 @@ def _upvar_name(body, idx):
 def metadata_rules(ctx, rep, R):
     prog = ctx.prog
     SM = prog.find1(r"^rustic_core::commands::restore::set_metadata$")
+    cg = ctx.cg
+    SETTERS = ("set_permission", "set_times", "set_uid_gid", "set_user_group", "set_extended_attributes", "create_special")
     calls = {}
-    for bb, t in SM.calls():
-        if "callee" in t:
-            m = re.search(r"LocalDestination::(set_permission|set_times|set_uid_gid|set_user_group|set_extended_attributes|create_special)$", callee(t))
-            if m:
-                calls.setdefault(m.group(1), []).append(bb)
+    for (bb, t, kind, tgts, info) in cg.sites(SM):
+        if t is None or "callee" not in t:
+            continue
+        m = re.search(r"LocalDestination::(" + "|".join(SETTERS) + r")$", callee(t))
+        if m:
+            calls.setdefault(m.group(1), []).append(bb)
+            continue
+        # a local helper (e.g. `restore_ownership(..)`) counts as a site of every setter it can reach
+        if tgts and all(x.crate == "rustic_core" for x in tgts):
+            seen = cg.reachable(tgts)
+            for nm in SETTERS:
+                if any(p_.endswith("LocalDestination::" + nm) for p_ in seen):
+                    calls.setdefault(nm, []).append(bb)
     for name in ("set_permission", "set_times"):
         sites_ = calls.get(name, [])
         ok = len(sites_) == 1 and C.dominates(SM, sites_[0], [bi for bi in range(len(SM.blocks)) if SM.term(bi)["k"] == "return"][0]) if sites_ else False
         rep.check(R, f"set_metadata/{name}-always", ok, where=SM.loc(), what=f"set_metadata calls {name} on every path (for every node kind and option combination)" if ok else
                   f"set_metadata does not call {name} on every path: some restored entries keep default {'permissions' if name == 'set_permission' else 'time stamps'}")
-    own = calls.get("set_uid_gid", []) + calls.get("set_user_group", [])
-    oko = len(own) == 2
+    own = sorted(set(calls.get("set_uid_gid", []) + calls.get("set_user_group", [])))
+    oko = len(own) >= 1 and bool(calls.get("set_uid_gid")) and bool(calls.get("set_user_group"))
     if oko:
         # the only way around both ownership setters is no_ownership == true
         ret = [bi for bi in range(len(SM.blocks)) if SM.term(bi)["k"] == "return"][0]
